@@ -47,7 +47,7 @@ def assemble_from(asm, cwd, main_abs, inc_abs):
     try:
         labels, constants = {}, {}
         try:
-            b = asm.assemble(main_abs, constants=constants, labels=labels, include_dirs=list(inc_abs))
+            b = asm.assemble(main_abs, constants=constants, labels=labels, include_dirs=inc_abs)
             return ('OK', bytes(b).hex(), list(labels.items()), list(constants.items()))
         except asm.AssemblerError as e:
             return ('ASM', getattr(e.line, 'file', None), getattr(e.line, 'number', None))
@@ -83,9 +83,15 @@ def check_tree(ctx, asm, tree, root, corr_cases, use_cli):
         corr_cases.append((tree, root, cwd, rel_incs, os.path.relpath(main_abs, cwd)))
     # ---- the property on the real code
     results = []
+    shared = list(inc_abs)               # ONE list object for all calls: a call must not change its caller's list
     for cwd in cwds:
         ctx.evaluations += 1
-        results.append((cwd, assemble_from(asm, cwd, main_abs, inc_abs)))
+        results.append((cwd, assemble_from(asm, cwd, main_abs, shared)))
+    if shared != list(inc_abs):
+        ctx.cex('assemble() changed the include_dirs list of its caller: {} -> {}'.format(
+            [d.replace(root, '<root>') for d in inc_abs], [d.replace(root, '<root>') for d in shared]),
+            {'kind': 'tree', 'tree': tree.to_json(), 'check': 'cwd'}, [d.replace(root, '<root>') for d in shared],
+            'unchanged', {'kind': 'caller-list-changed'})
     first = results[0][1]
     tj = tree.to_json()
     for cwd, r in results[1:]:
@@ -155,10 +161,12 @@ def explore(ctx):
     ctx.rule = ('generated include trees (depth <= 4; sibling / subdir / parent / ../common / -i / duplicate-name / absolute '
                 'includes; 8 spellings of the include line; first / middle / last position; decoy files in the working '
                 'directories; include_bytes in a quarter of the trees) + 13 hand-made error / edge trees; non-trivial = '
-                'distinct tree whose splice the independent splicer could compute')
+                'distinct tree whose splice the independent splicer could compute; plus shadow trees: the included name also exists in '
+                'the directory of a file read earlier, and the SAME include_dirs list object is passed to two consecutive calls')
     gen = fe.TreeGen(ctx.rng)
     n = 14 if ctx.quick() else 120
     trees = [gen.make('bytes' if i % 5 == 4 else ('plain' if i % 5 < 3 else None)) for i in range(n)]
+    trees += fe.shadow_trees(ctx.rng, 4 if ctx.quick() else 24)
     etrees = fe.error_trees()
     base = tempfile.mkdtemp(prefix='bbc14_')
     corr_cases = []
